@@ -318,12 +318,25 @@ static const scpi_unit_def_t *custom_unit_table() {
         e.unit = SCPI_UNIT_DECIBEL;
         e.mult = 1;
         t.push_back(e);
+        e.name = "V/us";   // a compound unit (slew rate) and an exponent unit
+        e.unit = SCPI_UNIT_VOLT;
+        e.mult = 1e6;
+        t.push_back(e);
+        e.name = "M3";
+        e.unit = SCPI_UNIT_LITER;
+        e.mult = 1000;
+        t.push_back(e);
         e.name = nullptr;
         e.unit = SCPI_UNIT_NONE;
         e.mult = 0;
         t.push_back(e);
     }
     return t.data();
+}
+
+void World::use_units(int which) {
+    const scpi_unit_def_t *init = cfg.with_units ? (cfg.custom_units ? custom_unit_table() : scpi_units_def) : nullptr;
+    ctx->units = which == 1 ? custom_unit_table() : which == 2 ? nullptr : init;
 }
 
 void World::seal() {
